@@ -57,6 +57,18 @@ def _cmp(c, inst, where, got, want, what):
         else:
             c.bad(inst, where, "%s is documented as %r but the code computes %r" % (what, want, got))
     except Unsupported as ex:
+        # the same two pieces under thresholds that differ by a constant: a different function on the strip between the thresholds
+        try:
+            if isinstance(got, PW) and isinstance(want, PW) and got.cfrac is not None and want.cfrac is not None and got.cfrac[0] == want.cfrac[0] \
+                    and same(got.t, want.t) and same(got.f, want.f) and not same(got.t, got.f):
+                d = got.cfrac[1] - want.cfrac[1]
+                import re as _re
+                if not d.is_zero() and not any(_re.match(r"a\d+$", a) for a in d.atoms()):
+                    c.bad(inst, where, "%s has the documented pieces but switches between them at a different threshold (`%s` instead of `%s`): on the values between the two thresholds it returns the other piece"
+                          % (what, got.cond, want.cond))
+                    return
+        except Unsupported:
+            pass
         c.unk(inst, where, "%s: comparison outside the algebra (%s)" % (what, ex))
 
 
@@ -84,7 +96,7 @@ def r35_pointwise_definitions(facts):
         if name == "scale":
             return a * p
         if name == "relu":
-            return PW("Gt(%r)" % a, a, Frac(0))
+            return PW("Gt(%r)" % a, a, Frac(0), ("Gt", a))
         if name == "sigmoid":
             return Frac(1) / (Frac(1) + alg.exp(-a))
         return None
